@@ -49,7 +49,13 @@ class Faults:
         c = self.cut_at
         if c is not None and c[0] == op and c[1] == k and self.link is not None:
             self.cut_at = None
-            self.link.cut(None, c[2])
+            delay = c[3] if len(c) > 3 else 0
+            if delay:
+                # the k-th operation is still served and answered; the link goes right behind the answer
+                link, kind = self.link, c[2]
+                self.sim.after(delay * 1e-6, lambda: link.cut(None, kind))
+            else:
+                self.link.cut(None, c[2])
 
 
 class Handle(SFTPHandle):
